@@ -1,7 +1,8 @@
 (* Store.v -- executable model of pyiron_workflow/storage.py (StorageInterface.save/load/
    has_saved_content/delete, PickleStorage._save/_load/_delete/_has_saved_content) and of
    Node.save/load/delete_storage/_after_node_setup (pyiron_workflow/node.py), AS THE CODE IS
-   after commit 8ca9d2e (scratch file + replace).
+   after commits 8ca9d2e (scratch file + replace) and 816f4c3 (delete also
+   removes scratch files; the cwd is never rmdir'ed).
 
    File system model.  The universe is one working directory (the cwd) and its direct
    sub-directories.  A file system is a set of existing sub-directories plus a finite map
@@ -69,9 +70,8 @@ Definition dir_exists (f : fs) (d : dir) : bool :=
   match d with None => true | Some s => mems s (dirs f) end.
 Definition has_file_in (f : fs) (d : dir) : bool :=
   existsb (fun pc => dir_eqb (fst (fst pc)) d) (files f).
-(* `not any(d.iterdir())`: the cwd also lists its sub-directories *)
-Definition dir_empty (f : fs) (d : dir) : bool :=
-  negb (has_file_in f d) && match d with None => match dirs f with [] => true | _ => false end | Some _ => true end.
+(* `not any(d.iterdir())` for a sub-directory (one level: it only holds files) *)
+Definition dir_empty (f : fs) (d : dir) : bool := negb (has_file_in f d).
 
 (* ---- primitive steps ---------------------------------------------------------------- *)
 Inductive step :=
@@ -81,14 +81,15 @@ Inductive step :=
 | SClose (p : path)
 | SRename (p q : path)                               (* Path.replace *)
 | SUnlink (p : path)                                 (* Path.unlink(missing_ok=True) *)
-| SRmdirIfEmpty (d : dir).                           (* if d.exists() and not any(d.iterdir()): d.rmdir() *)
+| SRmdirIfEmpty (d : dir).     (* if d.exists() and d.resolve() != cwd and not any(d.iterdir()): d.rmdir() *)
 
 (* the os-level calls a step makes (the trace the harness records on the real code) *)
 Inductive ev :=
 | EMkdir (d : dir) | ECreate (p : path) | EWrite (p : path) | EClose (p : path)
 | ERename (p q : path) | EUnlink (p : path) | EScan (d : dir) | ERmdir (d : dir).
 
-(* one step: new file system, whether OSError was raised (rmdir of the cwd), its calls *)
+(* one step: new file system, whether OSError was raised (no step does since 816f4c3: the rmdir of
+   the cwd is gone), its calls *)
 Definition exec (s : step) (f : fs) : fs * bool * list ev :=
   match s with
   | SMkdir d =>
@@ -106,14 +107,14 @@ Definition exec (s : step) (f : fs) : fs * bool * list ev :=
        end, false, [ERename p q])
   | SUnlink p => (rm_file p f, false, [EUnlink p])
   | SRmdirIfEmpty d =>
-      if dir_exists f d then
-        if dir_empty f d then
-          match d with
-          | None => (f, true, [EScan d; ERmdir d])             (* os.rmdir('.') -> EINVAL *)
-          | Some x => (mkfs (remove1 String.eqb x (dirs f)) (files f), false, [EScan d; ERmdir d])
-          end
-        else (f, false, [EScan d])
-      else (f, false, [])
+      match d with
+      | None => (f, false, [])                   (* the cwd is never scanned nor removed *)
+      | Some x =>
+          if mems x (dirs f) then
+            if dir_empty f d then (mkfs (remove1 String.eqb x (dirs f)) (files f), false, [EScan d; ERmdir d])
+            else (f, false, [EScan d])
+          else (f, false, [])
+      end
   end.
 
 Fixpoint run_steps (ss : list step) (f : fs) : fs * bool * list ev :=
@@ -149,11 +150,15 @@ Definition attack (l : loc) (fb : bool) (c : cls) (v : Z) (k : kind) (n g : nat)
     (* the dump raises after g bytes; `with` closes; except: tmp.unlink(missing_ok=True) *)
     [SCreate (tmp l fl); SWrite (tmp l fl) (Partial g) g; SClose (tmp l fl); SUnlink (tmp l fl)].
 
+(* the clean-up of `save`'s finally / of `delete`: nothing at all (not even a scan) for the cwd *)
+Definition rmdir_steps (d : dir) : list step :=
+  match d with None => [] | Some _ => [SRmdirIfEmpty d] end.
+
 Definition save_steps (l : loc) (fb : bool) (c : cls) (v : Z) (k : kind) (n g : nat) : list step :=
   [SMkdir (fst l)]
   ++ attack l fb c v k n g Pk
   ++ (if pickles k Pk then [] else if fb then attack l fb c v k n g Cp else [])
-  ++ [SRmdirIfEmpty (fst l)].
+  ++ rmdir_steps (fst l).
 
 Definition save_ok (k : kind) (fb : bool) : bool := pickles k Pk || (fb && pickles k Cp).
 
@@ -187,9 +192,11 @@ Definition load_file (f : fs) (l : loc) : lres :=
 Definition isSome {A} (o : option A) : bool := match o with Some _ => true | None => false end.
 Definition has_saved (f : fs) (l : loc) : bool := isSome (read f (fin l Pk)) || isSome (read f (fin l Cp)).
 
-Definition delete_steps (f : fs) (l : loc) : list step :=
-  (if has_saved f l then [SUnlink (fin l Pk); SUnlink (fin l Cp)] else []) ++ [SRmdirIfEmpty (fst l)].
-Definition delete (l : loc) (f : fs) : fs * bool * list ev := run_steps (delete_steps f l) f.
+(* StorageInterface.delete: _delete unconditionally (each final file and its scratch file), then the
+   directory if it is not the cwd and is left empty *)
+Definition delete_steps (l : loc) : list step :=
+  [SUnlink (fin l Pk); SUnlink (tmp l Pk); SUnlink (fin l Cp); SUnlink (tmp l Cp)] ++ rmdir_steps (fst l).
+Definition delete (l : loc) (f : fs) : fs * bool * list ev := run_steps (delete_steps l) f.
 
 (* ---- Node.load, construction ---------------------------------------------------------- *)
 Definition node := (cls * Z)%type.
